@@ -528,6 +528,16 @@ def units (side, rng, tier):
   for _ in range(n // 2):
     yield "random stream", bytes(rng.getrandbits(8) for _ in
                                  range(rng.choice([1, 7, 8, 9, 40, 200])))
+  # the largest messages the length field can express, all bytes present:
+  # an error reply quoting them whole cannot be built any more (its own
+  # length field overflows), so the "answer with an error" path itself fails
+  big = [65523, 65524, 65528, 65535] if quick else \
+      list(range(65500, 65536))
+  for L in big:
+    for t in (22, 200, 14, 13, 16):      # unknown types; flow_mod / packet_out / stats with a garbage body
+      yield "maximal length %s" % ("unknown type" if t >= 22 else "garbage body"), \
+          struct.pack("!BBHL", 1, t, L, 0x6d617800 | (L & 0xff)) + \
+          bytes((i * 7 + t) & 0xff for i in range(L - 8))
   for _ in range(n // 4):
     # plausible header, random body
     l = rng.choice([8, 12, 16, 40, 72, 100])
